@@ -16,7 +16,7 @@ Definition lcase := (Z * bool * Z * N * N * Z * (Z * Z * bool * bool * Z))%type.
 Definition dir_of (n : N) : direction := if (n =? 0)%N then C2S else S2C.
 Definition tr_of (n : N) : transport :=
   if (n =? 0)%N then PostCL else if (n =? 1)%N then PostChunked
-  else if (n =? 2)%N then WS else Poll.
+  else if (n =? 2)%N then WS else if (n =? 3)%N then Poll else WT.
 
 (** Observation classes; anything else (delivered but closed, lost but alive, ...) is neither. *)
 Definition obs_accept (size delivered : Z) (closed alive : bool) : bool :=
@@ -80,5 +80,6 @@ Definition finding_class (c : lcase) : N :=
   | S2C, WS => 1%N                      (* ws client read limit *)
   | C2S, WS => if dis then 2%N else 4%N (* ws server: disabled keeps library default / limit value *)
   | C2S, PostChunked => 3%N             (* undeclared body size *)
+  | C2S, WT => 5%N                      (* webtransport declared frame length *)
   | _, _ => 0%N
   end.
